@@ -84,7 +84,7 @@ func runUndrainedFault(c UndrainedFaultCase) *ev.Failure {
 
 var undrainedFaultProp = ev.Register(&ev.Prop[UndrainedFaultCase]{
 	ID: "C15", Name: "error-reports-nobody-reads",
-	Rule: "a ServeMux whose ErrorReports channel nobody reads, 1..3 faulty connections (undecodable input, 7 variants) and a healthy one, accepted by Serve or made with NewConn; after the faults the healthy peer sends a request without a handler and two watchdog requests. Demanded: every faulty transport closed, both watchdog requests answered. Every case is non-trivial",
+	Rule: "a ServeMux whose ErrorReports channel nobody reads, 1..3 faulty connections (undecodable input, 9 variants) and a healthy one, accepted by Serve or made with NewConn; after the faults the healthy peer sends a request without a handler and two watchdog requests. Demanded: every faulty transport closed, both watchdog requests answered. Every case is non-trivial",
 	Run:  runUndrainedFault,
 	Classify: func(c UndrainedFaultCase) (bool, []string) {
 		return true, []string{fmt.Sprintf("served:%v", c.Served), fmt.Sprintf("faulty:%d", c.Faulty)}
